@@ -156,6 +156,16 @@ def _interpret_method(name, fn, mod):
                 for t in node.targets:
                     if isinstance(t, ast.Name):
                         var_group[t.id] = g
+    # soundness of the wiring: a traced variable must be assigned exactly once (a second, typically conditional,
+    # assignment would make "field = f(group k)" depend on data, which this encoding cannot express)
+    counts = {}
+    for node in ast.walk(fn):
+        if isinstance(node, (ast.Assign, ast.AugAssign)):
+            targets = node.targets if isinstance(node, ast.Assign) else [node.target]
+            for t in targets:
+                if isinstance(t, ast.Name):
+                    counts[t.id] = counts.get(t.id, 0) + 1
+    fragile = {v for v in var_group if counts.get(v, 0) > 1}
     produces, groups, literal = "other", {}, None
     ctor = [n for n in ast.walk(fn) if isinstance(n, ast.Call) and isinstance(n.func, ast.Name) and n.func.id in ("Instruction", "Label")]
     if ctor:
@@ -173,6 +183,8 @@ def _interpret_method(name, fn, mod):
                     g = group_of(kw.value)
                     if g is None:
                         raise Unsupported(f"{name}: cannot trace Instruction({kw.arg}=...) to a capture group")
+                    if isinstance(kw.value, ast.Name) and kw.value.id in fragile:
+                        raise Unsupported(f"{name}: variable '{kw.value.id}' feeding Instruction({kw.arg}=...) is assigned more than once or conditionally; the wiring cannot be encoded exactly")
                     groups[kw.arg] = g
             if literal == "empty":
                 produces = "empty_instruction"
